@@ -205,22 +205,45 @@ claim(
 
 claim(
     "C32",
-    "ConcurrentVector used sequentially is modelled in two layers (Model/ConVec.lean): the bucket layout functions and "
-    "the container as a value with a ledger of element objects. Proved: index -> (bucket, sub-index) is a bijection with "
-    "sub-index < bucket capacity and buckets tiling the index space, for every first-bucket size (C32_sub_lt_cap, "
-    "C32_index_decomp, C32_bucket_inverse, C32_buckets_tile, C32_bucket_injective); for every operation sequence the "
-    "number of live elements equals the total size, so every element constructed is destroyed exactly once (C32_ledger, "
+    "ConcurrentVector used sequentially is modelled in three layers. (1) Bucket layout (Model/ConVec.lean): index -> "
+    "(bucket, sub-index) is a bijection with sub-index < bucket capacity and buckets tiling the index space, for every "
+    "first-bucket size (C32_sub_lt_cap, C32_index_decomp, C32_bucket_inverse, C32_buckets_tile, C32_bucket_injective). "
+    "(2) The container as a value with a ledger of element objects: for every operation sequence the number of live "
+    "elements equals the total size, so every element constructed is destroyed exactly once (C32_ledger, "
     "C32_all_destroyed); every operation has std::vector's effect on contents and returns std::vector's position "
     "(C32_sem_* for all constructors, assign, push, grow_by family, grow_to_at_least, insert x3, erase x2, resize, "
-    "reserve, pop_back, clear, shrink_to_fit, copy/move assignment, swap; frame lemma). The tie runs random operation "
-    "sequences on ConcurrentVector<Tracked,Traits> for the default and both test trait sets (first bucket of 1 and 32 "
-    "elements), std::vector and the model, comparing size, returned position, contents, live count after every "
-    "operation, iteration/indexing/reverse iteration/iterator arithmetic against std::vector, and the bucket index "
-    "functions against the model (ASan/UBSan).",
-    "Trusted: Lean kernel; the value model is hand-written and checked on the explored sequences only; iterator "
-    "arithmetic of concurrent_vector_impl2.h is compared with std::vector, not modelled; custom SizeTraits cannot be "
-    "instantiated (the iterator type hard-codes the default ones), so small buckets are reached with a 256-byte element.",
-    "Lean 4 proof (bucket bijection, ledger invariant, per-operation list semantics) + differential correspondence",
+    "reserve, pop_back, clear, shrink_to_fit, copy/move assignment, swap; frame lemma). (3) Capacity / allocation "
+    "(Model/ConVecAlloc.lean): per vector firstBucketShift_, size, which buffers_[b] are non-null, the shouldDealloc_ "
+    "flags, a ghost 'start of a live malloc block' bit per bucket and the cv::alloc/cv::dealloc counters; "
+    "allocAsNecessaryImpl (single-index and range variant with counting pass, single allocation, tryAssignBuffer pass "
+    "and wait loops), reserve, shrink_to_fit, clear, the reserving constructor, move/swap, for every realloc strategy, "
+    "first-bucket shift, kMaxBuffers >= 2 and inline/heap table. Proved for every operation sequence: the invariant "
+    "(allocated buckets are a prefix containing buckets 0 and 1; once the index at allocCheckIndex of bucket b is in use "
+    "bucket b+1 exists) holds and no operation ever waits for a missing bucket (C32_alloc_inv_reachable, "
+    "C32_alloc_never_hangs, C32_alloc_ahead, C32_alloc_prefix); every index <= size lies in an allocated bucket "
+    "(C32_alloc_index_allocated); capacity() counts exactly the indices with allocated storage and size <= capacity "
+    "(C32_alloc_capacity); reserve(n) ends with capacity >= n (C32_alloc_reserve); growth only stores into null entries "
+    "and never drops a bucket (C32_alloc_growth_monotone); the range variant visits bucket b+1 whenever the trigger index "
+    "of b is in the range and computes that bucket's capacity for it (C32_alloc_range_targets); ledger: allocs = frees + "
+    "first block (+ table) + block-start buckets, shouldDealloc_ = block start on allocated buckets, no block start is ever "
+    "dropped unfreed, no non-start pointer is ever freed, the destructor balances allocs and frees "
+    "(C32_alloc_ledger, C32_alloc_destroy_balanced, C32_alloc_all_freed). The tie runs random operation sequences on "
+    "ConcurrentVector<Tracked,Traits> for 10 trait/element combinations (first buckets of 1, 4 and 32 elements, all three "
+    "strategies, inline and heap table, both iterator kinds), std::vector and both models: size, returned position, "
+    "contents, live count after every operation; white-box firstBucketShift_, capacity(), non-null buffers_ mask, "
+    "shouldDealloc_ mask, block-start mask and the malloc/free log (calls, element slots requested) after every "
+    "operation; iteration/indexing/reverse iteration/iterator arithmetic against std::vector; the bucket index functions "
+    "against the model (ASan/UBSan). Oracle: contents vs std::vector, element lifetimes, hang watchdog, bucket storage "
+    "inside live blocks and pairwise disjoint, all blocks freed at the end of every sequence.",
+    "Trusted: Lean kernel; the models are hand-written and checked on the explored sequences only; iterator arithmetic of "
+    "concurrent_vector_impl2.h is compared with std::vector, not modelled; which buckets share one malloc block is not "
+    "modelled (use-after-free of a carved bucket is left to ASan and the storage oracle); cachedPtrs_ is not modelled "
+    "(operator[] reads are compared); sizes beyond kMaxVectorSize (buffers_[kMaxBuffers]) are rejected by the model; "
+    "custom SizeTraits cannot be instantiated (the iterator type hard-codes the default ones), so small buckets are reached "
+    "with 64- and 256-byte elements. The allocation log intercepts ::malloc/::free textually in dispenso's inline "
+    "alignedMalloc/alignedFree.",
+    "Lean 4 proof (bucket bijection, ledger invariant, per-operation list semantics, allocation invariant over all "
+    "operation sequences) + differential correspondence (black-box and white-box)",
     "DESIGN.md §5.5 C32",
 )
 
@@ -386,6 +409,186 @@ claim(
     "proved statement says what holds instead of Closed).",
     "Lean 4 proof (BFS invariant, closure characterisation) + differential correspondence",
     "DESIGN.md §5.4 C31",
+)
+
+claim(
+    "C33",
+    "Concurrent growth of ConcurrentVector is modelled at the granularity of one action per atomic operation "
+    "(Model/ConVecGrow.lean, generic interleaving semantics Core/Conc.lean): size_, buffers_[b] and one tag per element; "
+    "emplace_back/push_back (fetch_add(1), the single-index allocAsNecessaryImpl with its load-then-store at the trigger "
+    "index and its spin on the own bucket, the iterator's pointer fetch, the element construction), the grow_by family "
+    "(fetch_add(d), the range variant: counting pass, one allocation, tryAssignBuffer pass = load then store, wait loops "
+    "over the buckets of the range, pointer fetch, d constructions), grow_to_at_least (load, then grow_by or an iterator; "
+    "the code has no CAS loop) and readers of elements that existed before; parameters: realloc strategy, first-bucket "
+    "shift, initial size, initially allocated buckets, iterator kind. Proved for every number of threads and every "
+    "interleaving: the fetch_adds return consecutive ranges, i.e. reservations are pairwise disjoint, tile [n0, size) and "
+    "final size = initial size + total growth (C33_reservations_tile); reservations held by different threads are "
+    "disjoint at every moment (C33_reservations_disjoint); whenever a thread is about to store buffers_[k] it is still "
+    "null, the trigger index of k lies in that thread's reservation and no other thread is about to store it — no double "
+    "allocation although tryAssignBuffer is not a CAS (C33_bucket_stored_once); a non-null bucket pointer never changes "
+    "again, so references and iterators stay valid (C33_buffers_stable); whenever a thread constructs index x, x lies in "
+    "its reservation, the bucket of x is allocated, the slot was never constructed and no other thread constructs x "
+    "(C33_element_written_once, C33_range_allocated); a constructed element never changes and the initial elements keep "
+    "their values (C33_elements_stable); a returned call's d elements hold exactly its tags (C33_call_result); in a "
+    "quiescent state every index below size is constructed (C33_quiescent_complete); a reader of an initial element sees "
+    "its initial value (C33_reader); if the vector starts in a state the sequential operations produce (bucket 0 and "
+    "every bucket whose trigger index is below the initial size exist, C32_alloc_ahead), then whenever a thread spins on "
+    "a null bucket pointer another thread, which is not waiting itself, is on its way to publish exactly that bucket "
+    "(C33_wait_has_owner: no cyclic wait, no bucket nobody will allocate). Tie (trace validation): the real ConcurrentVector runs under the deterministic "
+    "scheduler (8 trait sets: 3 strategies x inline/heap table x both iterator kinds, first buckets of 1, 2, 4 or a "
+    "reserved capacity; random sequential prefix incl. reserve/shrink_to_fit; 2..4 threads x 1..3 operations with amounts "
+    "crossing bucket boundaries); every atomic event on size_, buffers_[b] and the elements, every call/return and the "
+    "final memory are replayed through the proved model (pointers compared for null/non-null, declared release/acquire "
+    "orders of the bucket publication required). Oracle on the implementation: every call's unique tags sit at its "
+    "returned position, final size = initial + total growth, initial elements / saved references / saved iterators "
+    "unchanged, readers see the right values, iteration agrees with indexing, every bucket pointer stored at most once, "
+    "bucket storage inside live malloc blocks and disjoint, every block referenced and freed at destruction, element "
+    "lifetimes balanced, no operation hangs (scheduler livelock/deadlock report).",
+    "Trusted: Lean kernel; hand-written model, tied to the code on the explored scenarios only; sequentially consistent "
+    "interleaving semantics (memory orders are only checked as declared, C10); cachedPtrs_ (plain mirror of buffers_) and "
+    "shouldDealloc_ are outside the concurrent model (operator[] results and the allocation log are checked by the "
+    "oracle); termination of the wait loops is proved only in the form 'every awaited bucket has a non-waiting owner' "
+    "(C33_wait_has_owner) — that the owner is eventually scheduled (fairness) is not formalised; the "
+    "counting pass / assigning pass agreement (the block requested is exactly the block carved) is observed through the "
+    "allocation log, not proved; element tags are non-zero; size stays below 2^63. grow_to_at_least may grow more than "
+    "needed when called concurrently (load + fetch_add): the theorems and the oracle only require size >= n and exact "
+    "accounting of what was added.",
+    "Lean 4 proof (inductive invariant over all interleavings: reservation disjointness, trigger ownership, per-location "
+    "facts; history lemma for the fetch_adds) + trace validation under dsched",
+    "DESIGN.md §5.5 C33",
+)
+
+
+_SCHED_TIE = ("The tie runs random programs (0..3 pool threads, 0..2 extra producers, pool / TaskSet / ConcurrentTaskSet single, "
+              "force-queued and bulk submissions, nested submissions, cancel, throwing bodies, wait / tryWait, concurrent resize incl. "
+              "to zero, setSignalingWake, destruction) on the real code under the deterministic scheduler; every guarded observation hook "
+              "(DISPENSO_VERIF_HOOK) and harness call / body marker is replayed through the same `step`; an event the ledger does not "
+              "enable is a correspondence failure routed to the property whose rule rejected it. ")
+_SCHED_NOTE = "Trusted: Lean kernel; the hand-written ledger model (tied to the code only on the explored programs and schedules); the observation hooks report each operation atomically with it (hook placement is part of the tie: a hook in the wrong place makes traces of the unchanged code unacceptable); dsched; sequential consistency; moodycamel's queue and the rings are abstract multiset tiers here (ring semantics: C34). Task identity at dequeue is resolved by the body that then begins (or, for a skipped cancelled task, by its set only)."
+
+claim(
+    "C01",
+    "Model/Sched.lean is a ledger automaton over the events of ThreadPool + task sets (submission calls, workRemaining_ "
+    "updates, pushes to and takes from the central queue / rings / steal rings, body begin/end, resize and destructor phases). "
+    "Proved for every accepted trace of any length, any number of threads, sets and tasks: task ids begin at most once, only "
+    "after submission, and end only after they began (C01_at_most_once); the destructor's final event is enabled only when "
+    "every tier is empty and nothing is reserved, taken or running (C01_dtor_end_empty); tasks handed to the pool directly are "
+    "never skipped or dropped (C01_pool_never_drops); hence once ~ThreadPool has returned every task handed to the pool "
+    "directly has begun and ended exactly once (C01_exactly_once, C01_exactly_once_at_dtor, C01_quiescent_all_ran), nothing can "
+    "be submitted afterwards (C01_no_submission_after_dtor), and for every task set bodies run + skipped-by-cancellation + "
+    "dropped = submitted (C01_count_at_dtor, C01_quiescent_count). " + _SCHED_TIE + "Oracle: per-task invocation counters checked "
+    "after ~ThreadPool for every pool size incl. zero, signalling and polling mode.",
+    _SCHED_NOTE,
+    "Lean 4 proof (inductive invariants over a ledger automaton) + trace validation of hook events under a deterministic scheduler",
+    "DESIGN.md Part I, §5.1 C01",
+)
+
+claim(
+    "C02",
+    "Over the same ledger model: outstandingTaskCount_ of a set equals, in every reachable state, the number of its packaged "
+    "tasks that are credited-but-unplaced, queued, held after the cancel guard, running, or finished but not yet decremented "
+    "(C02_outstanding_exact, C02_credit_only_in_calls); therefore whenever wait / tryWait / the destructor read zero (the "
+    "ts.zero hook, accepted only if the model's counter is zero: C02_zero_observed) no packaged task of the set is queued, "
+    "held or running and no inline body of it can begin (C02_barrier, C02_barrier_no_inline_begin), every begun body of the "
+    "set has ended and bodies + skipped + dropped = submitted (C02_bodies_complete, C02_tasks_accounted); a wait call reports "
+    "completion only after such an observation made during that call (C02_wait_reports_done_only_after_zero, "
+    "C02_wait_starts_unobserved). " + _SCHED_TIE +
+    "Oracle: at every wait()/tryWait()==true return every task scheduled before the call has finished; no set task runs twice; "
+    "tasks of never-cancelled sets all run; wait() never hangs (deadlock / livelock detection).",
+    _SCHED_NOTE + " Contract assumed: nobody schedules to a ConcurrentTaskSet concurrently with wait() except tasks of the set.",
+    "Lean 4 proof (counter-exactness invariant over a ledger automaton) + trace validation under a deterministic scheduler",
+    "DESIGN.md Part I, §5.1 C02",
+)
+
+claim(
+    "C03",
+    "Safety part over the ledger model with resize events: conservation and exactly-once (C01 theorems) hold across any "
+    "number of resizes; no task is ever in a per-thread ring at or above the published ring count (C03_rings_inside, "
+    "C03_rings_inside_always: a push outside the ring count is rejected, C03_push_outside_rejected, and resizeLocked's "
+    "publication of a ring count is rejected while a ring outside it holds work, C03_shrink_over_work_rejected), which is what "
+    "lets waiters, who poll exactly the rings below numRings_, reach every ring task. " + _SCHED_TIE +
+    "Oracle (resize-heavy programs): every task runs exactly once, every wait() and resize() returns (livelock detection), and "
+    "after all waits no directly scheduled task is left where only the destructor will run it. Two genuine defects were found: "
+    "ring pushes racing a shrinking resize (fixed: numRings_ no longer shrinks) and a task enqueued to the central queue of a "
+    "pool that a concurrent resize(0) has just emptied (known finding, see known_findings.json): C03 does not hold in full on this tree.",
+    _SCHED_NOTE + " 'Never strands' is stated as safety (where tasks may sit relative to who polls); fairness of the polling "
+    "threads is outside the model.",
+    "Lean 4 proof (ring-placement invariant + conservation over a ledger automaton) + trace validation + stranded-task / livelock oracle",
+    "DESIGN.md Part I, §5.1 C03",
+)
+
+claim(
+    "C04",
+    "Over the ledger model: a cancel check that reads 'not cancelled' is rejected once the cancelling store has happened "
+    "(C04_no_pass_after_cancel; the cancelled set only grows: C04_cancelled_monotone, C04_cancelled_monotone_run), and a body "
+    "of a set task can begin only from a frame state established by such a passed check of that set in the same call / "
+    "package wrapper (C04_begin_needs_guard); at trace level every accepted begin of a set task is preceded by a passed cancel "
+    "check of that set by the same thread at the same stack depth, made while the set was not cancelled, with no other body "
+    "begun at that depth in between (C04_body_after_passed_guard): no body starts after cancel() unless its guard point came "
+    "first. " + _SCHED_TIE + "In particular the set's unpackaged inline run (ts.inline hook) is accepted only after a passed check "
+    "in the same call, which is how the unguarded pool-overload branch of ConcurrentTaskSet::schedule was found (fixed). Oracle: a "
+    "task whose schedule call started after cancel() returned never runs.",
+    _SCHED_NOTE + " 'Start of a body' is read as the cancel check that guards it (the only reading a lock-free implementation "
+    "can satisfy); in a bulk call one passed per-chunk check may cover the inline bodies of that chunk.",
+    "Lean 4 proof (guard-point invariant and trace-level history theorem over a ledger automaton) + trace validation under a deterministic scheduler",
+    "DESIGN.md Part I, §5.1 C04",
+)
+
+claim(
+    "C05",
+    "Over the ledger model's exception state machine (capture = CAS winner, rethrow in testAndResetException): a set holds at "
+    "most one captured exception (C05_capture_once, C05_captured_nodup), rethrows ≤ captures ≤ rethrows + 1 in every reachable "
+    "state (C05_capture_state, C05_rethrows_le_captures), a rethrow happens only in a wait call that has observed the counter at "
+    "zero (C05_rethrow_after_zero), and a wait call that reports completion leaves no captured exception behind and reports an "
+    "exception iff it rethrew (C05_done_delivers); the decrement owed by a throwing packaged task is tracked like any other, so "
+    "C02's barrier survives exceptions. " + _SCHED_TIE + "Oracle: exceptions delivered ≤ captured, a captured exception is "
+    "delivered by the next completed wait, waits still return.",
+    _SCHED_NOTE + " Which exception object is delivered is not modelled (the CAS winner's, by construction of the code).",
+    "Lean 4 proof (state-machine invariant over a ledger automaton) + trace validation under a deterministic scheduler",
+    "DESIGN.md Part I, §5.1 C05",
+)
+
+claim(
+    "C08",
+    "Over the ledger model with the exact update sites of workRemaining_: in every reachable state the counter equals the "
+    "credits of submission calls in progress + the number of queued tasks in all tiers + the decrements still owed by threads "
+    "that took tasks (C08_accounting, C08_queue_bookkeeping); hence it is zero in every quiescent state (C08_quiescent_zero, "
+    "C08_quiesce_event) and the thread that resizes the pool owes nothing when resizeLocked ends (C08_resize_end_settled). " +
+    _SCHED_TIE + "Oracle: after all waits, with all directly scheduled tasks finished, the real counter (white-box read) returns "
+    "to zero. The ring drains of resizeLocked / ~ThreadPool did not decrement (found by both the ledger and the oracle; fixed).",
+    _SCHED_NOTE,
+    "Lean 4 proof (accounting invariant over a ledger automaton) + trace validation + white-box counter oracle",
+    "DESIGN.md Part I, §5.1 C08",
+)
+
+claim(
+    "C47",
+    "Over the ledger model: while a submission call carries ForceQueuingTag no body can begin on the calling thread "
+    "(C47_fq_never_begins_inline) and neither the pool's nor the set's inline decision is enabled "
+    "(C47_fq_blocks_inline_decisions); the tag of a frame is dropped only by the zero-thread path, which is enabled only when "
+    "the pool has no threads or is being resized (C47_inline0_needs_no_threads, C47_fq_cleared_only_without_threads, "
+    "C47_fq_cleared_top). " + _SCHED_TIE + "Oracle: a force-queued task never runs on its submitting thread before the call "
+    "returns when the pool never had zero threads.",
+    _SCHED_NOTE,
+    "Lean 4 proof (frame invariant over a ledger automaton) + trace validation under a deterministic scheduler",
+    "DESIGN.md Part I, §5.1 C47",
+)
+
+claim(
+    "C46",
+    "Model/InlineDepth.lean: the per-thread stack of running bodies with the guard of every bounded inline path "
+    "(canInlineSchedule / InlineDepthGuard, kMaxInlineDepth = 32). Proved for every event sequence of any length: the number "
+    "of nested guarded inline executions never exceeds 32 (C46_bounded), a guarded decision at depth 32 is rejected "
+    "(C46_guard_rejects), and without zero-thread decisions no unguarded inline body is ever on the stack (C46_no_unguarded). "
+    "Tie: chains of 40..200 tasks, each scheduling its successor through ThreadPool::schedule / scheduleBulk, TaskSet and "
+    "ConcurrentTaskSet (light, heavy) schedule / scheduleBulk on overloaded pools, run on the real code under the deterministic "
+    "scheduler; the inline-decision hooks and body begin/end markers are replayed through the model (a decision taken at depth "
+    "≥ 32 is a correspondence failure). Oracle: bodies nest at most 34 deep on any thread whatever the chain length. "
+    "ThreadPool::schedule / TaskSet::schedule had no guard (fixed); a zero-thread pool still inlines without bound (known finding).",
+    "Trusted: Lean kernel; hand-written model; hooks; dsched. Pipeline, graph and future hand-offs use the same guard and are "
+    "exercised by their own properties' harnesses; a body that itself calls wait() is user recursion and is not counted.",
+    "Lean 4 proof (depth invariant) + trace validation of inline decisions under a deterministic scheduler + nesting-depth oracle",
+    "DESIGN.md Part I, §5.1 C46",
 )
 
 ALL = ["C%02d" % i for i in range(1, 49)]
